@@ -4,7 +4,9 @@
 -/
 import XMT.WrapLemmas
 import XMT.CbkLemmas
+import XMT.CbkStream
 import XMT.DnsLemmas
+import XMT.DnsRoundtrip
 namespace XMT.Props.C07
 open XMT XMT.Wrap
 
@@ -76,12 +78,27 @@ theorem cbk_scramble_inverse (k : Cbk.Key) (index : UInt8) (b : Bytes) (hl : 16 
 theorem cbk_shuffle_inverse (k : Cbk.Key) (b : Bytes) : Cbk.deshuffle k (Cbk.shuffle k b) = b :=
   Cbk.deshuffle_shuffle k b
 
--- OPEN: cbk_stream — for every key, block size in {16,32,64,128}, write chunking `ws`, chunking `cs` of
--- the wire bytes and sequence of Read sizes, `Cbk.readSeq`/`Cbk.readAll` over `cs` returns exactly
--- `ws.flatten` followed by EOF, i.e. `LGood (Cbk.cbkLayer s0)`.  The `Write`/`Flush`/`Read` state
--- machines are modelled literally (XMT/Cbk.lean) and compared byte for byte with the real code on
--- every run; the proof of the framing/state-machine part is not done.  Proved part: `cbk_block`
--- (every block written is read back), used with `stack_roundtrip` through the hypothesis `LGood`.
+/-- **The CBK stream wrapper is lossless for every payload**: for every key and every block size
+`newSource` accepts, the `Write`/`Flush`/`Close` and `Read` state machines (modelled literally in
+XMT/Cbk.lean and compared byte for byte with the real code on every run) form a good layer — whatever
+is written, in whatever write chunking, is read back exactly, followed by EOF; so `stack_roundtrip`
+applies to every stack that contains CBK layers. -/
+theorem cbk_stream (a b c d sz : UInt8) (s0 : Cbk.St) (h : Cbk.newSource a b c d sz = some s0) :
+    LGood (Cbk.cbkLayer s0) := Cbk.cbk_stream a b c d sz s0 h
+
+/-- …and however the wire bytes are chunked on the way (empty pieces, splits inside a block or its
+count byte) and whatever sizes the `Read` calls ask for (0, smaller than what is buffered, larger than
+a block): `readAll` returns the payload and EOF, and any sequence of Reads returns exactly the
+functional specification `seqSpec` (each Read the next `k` bytes, the first Read with nothing left
+EOF). Covers no writes at all, empty writes, totals that are exact multiples of the block size and
+the block-index wrap after 31 blocks. -/
+theorem cbk_stream_chunked (a b c d sz : UInt8) (s0 : Cbk.St) (h : Cbk.newSource a b c d sz = some s0)
+    (ws : List Bytes) :
+    ∃ out, Cbk.writeAll s0 ws = some out ∧
+      ∀ cs : Codec.Stream, cs.flatten = out.flatten →
+        (∀ fuel, out.flatten.length < fuel → Cbk.readAll fuel s0 cs = some (ws.flatten, none)) ∧
+        (∀ ks, Cbk.readSeq s0 cs ks = some (Cbk.seqSpec ws.flatten ks)) :=
+  Cbk.cbk_stream_chunked a b c d sz s0 h ws
 
 /-! ## Base64-shift transform (c2/transform/base64.go) -/
 
@@ -110,12 +127,24 @@ theorem dns_name_decodes_partial (dom pre post : Bytes) :
       = .ok (pre.length + (Dns.encName (Dns.splitDots dom)).length + 1) :=
   Dns.nameLoop_encName dom pre post
 
--- OPEN: dns_roundtrip — for both `dnsServer` values, every domain of at most 255 bytes, every random
--- filler and every non-empty payload `b` (any length: 256-byte records, 2048-byte packets):
---   Dns.write server dom rs b = some pkts ∧ Dns.read pkts.flatten = (ws, none) ∧ ws.flatten = b.
--- Proved part: the question-name part above (the part the defects were in); the record/packet
--- segmentation arithmetic is modelled literally and compared with the real encoder and decoder on
--- every run (all lengths around 256/2048, multi-packet), concrete instances below are kernel-checked.
+/-- **The DNS transform is lossless for every payload**: for both `dnsServer` modes, every domain of
+at most 255 bytes (any bytes, any dots), every random filler and every payload `b` of any length
+(several 256-byte records per packet, several 2048-byte packets per `Write`), `DNSTransform.Write`
+succeeds and `DNSTransform.Read` applied to the concatenation of the packets written returns exactly
+`b` and no error. -/
+theorem dns_roundtrip (server : Bool) (dom : Bytes) (rs : List (Nat → UInt8)) (b : Bytes)
+    (hb : b ≠ []) (hdom : dom.length ≤ 255) :
+    ∃ pkts ws, Dns.write server dom rs b = some pkts ∧ Dns.read pkts.flatten = (ws, none) ∧ ws.flatten = b :=
+  Dns.dns_roundtrip server dom rs b hb hdom
+
+/-- The bound that is really needed is on the encoded question name: at most 1919 bytes (every domain
+of at most 1918 bytes). It is tight — with a name of 1920 bytes a full server-mode packet is 4097
+bytes, one more than the packet buffer, and `Write` reports a short write (30 labels of 63 bytes
+and a 2048-byte payload; evaluated, not kernel-checked: the term is too deep for `decide`). -/
+theorem dns_roundtrip_name (server : Bool) (dom : Bytes) (rs : List (Nat → UInt8)) (b : Bytes)
+    (hname : (Dns.encName (Dns.splitDots dom)).length ≤ 1919) :
+    ∃ pkts ws, Dns.write server dom rs b = some pkts ∧ Dns.read pkts.flatten = (ws, none) ∧ ws.flatten = b :=
+  Dns.dns_roundtrip_name server dom rs b hname
 
 /-! ## Send path → receive path (c2/vars.go writePacket / readPacket) -/
 
